@@ -19,11 +19,14 @@ pub struct WorldOpts {
     /// add words whose declared A/B units are UNRELATED words (key lengths that neither add up to the word nor fall on its
     /// character starts): the clamp and the snap of `NodeSplitIterator::next` are reached only by such declarations
     pub unrelated_units: bool,
+    /// lines appended to the world's `rewrite.def` (keys that are NFKC-stable and lower-case reach `replace_fast`, which the
+    /// shipped table never does: every shipped key contains a character that sends the text to the slow path)
+    pub rewrite_extra: Option<String>,
 }
 
 impl Default for WorldOpts {
     fn default() -> Self {
-        WorldOpts { input_plugins: true, path_rewrite: true, max_users: 2, splits: true, extreme: false, always_fallback: true, lex_size: 24, users_exact: None, unrelated_units: false }
+        WorldOpts { input_plugins: true, path_rewrite: true, max_users: 2, splits: true, extreme: false, always_fallback: true, lex_size: 24, users_exact: None, unrelated_units: false, rewrite_extra: None }
     }
 }
 
@@ -59,6 +62,10 @@ pub fn unk_def(rng: &mut Rng, n: usize) -> String {
 
 pub fn gen_world(rng: &mut Rng, tag: &str, o: &WorldOpts) -> Result<World, String> {
     let wd = Workdir::new(tag);
+    if let Some(extra) = &o.rewrite_extra {
+        let shipped = std::fs::read_to_string(wd.path.join("rewrite.def")).map_err(|e| format!("rewrite.def: {}", e))?;
+        wd.write("rewrite.def", &format!("{}\n{}", shipped, extra));
+    }
     let n = rng.range(2, 6);
     // every third world has a matrix that is not square; all connection ids stay below BOTH dimensions (an id between
     // the two is finding D17 and belongs to C20/C06)
